@@ -256,6 +256,23 @@ def merge_writes(evs):
     return out
 
 
+def drop_noop_commits(evs):
+    """normal form: a COMMIT with no statement since the previous COMMIT changes nothing in the model (Store.apply_ev folds an empty
+    list) and is not observable on the implementation side either (SQLAlchemy emits no COMMIT when no transaction was begun) - except the
+    two commits around VACUUM, which appear on both sides and are dropped from both"""
+    out, dirty = [], False
+    for e in evs:
+        k = e.split(' ')[0]
+        if k in ('insert', 'delete', 'updaterows', 'repoint'):
+            dirty = True
+        if k == 'commit':
+            if not dirty:
+                continue
+            dirty = False
+        out.append(e)
+    return out
+
+
 PROGRAM_SCENARIOS = {'add': 'add', 'add_flat': 'add', 'add_dup': 'add', 'add_big': 'add', 'loosen': 'add',
                      'pack': 'pack', 'pack_clean': 'pack', 'pack_small': 'pack', 'pack_auto': 'pack', 'pack_nofsync': 'pack',
                      'pack_nofsync_clean': 'pack', 'pack_novalidate': 'pack', 'pack_then_clean': 'pack', 'clean': 'clean', 'delete': 'delete',
@@ -434,8 +451,8 @@ def check_scenario(name, power_loss_expected=True):
         return {'name': name, 'error': 'driver: ' + (out[-1] if out else r.stderr[-300:]), 'events': ev[:50]}
     m = re.match(r'crash=(\S+) pl=(\S+) mono=(\S+) c13=(\S+) prog=(.*) final=(.*)$', out[-1])
     fin = parse_final(m.group(6))
-    prog_model = merge_writes([e for e in m.group(5).split('/') if e])
-    prog_impl = merge_writes(ev)
+    prog_model = drop_noop_commits(merge_writes([e for e in m.group(5).split('/') if e]))
+    prog_impl = drop_noop_commits(merge_writes(ev))
     prog_diff = None
     if plines:
         if prog_model != prog_impl:
